@@ -12,7 +12,7 @@ from ..spec import FIELDS
 META = {
     "level": "exploration",
     "exhaustive_whole": False,
-    "rule": ("(a) pipelines: program = convert(route in numpy/segy-regular/segy-irregular/segy-2D, setting, detection "
+    "rule": ("(a) pipelines: program = convert(route in numpy/segy-regular/segy-irregular/segy-2D/generated ZGY/generated VDS, setting, detection "
              "mode, library version) followed by up to two of {crop(box), re-block, export-to-SEG-Y-and-convert-again}; "
              "after every stage the file is validated against the specification (header truth, 4096-byte blocks, disk "
              "block count = padded voxels x bits / 8, footer arrays at the stride of the stamped version, file length, "
@@ -49,7 +49,7 @@ def version_encoding(vs):
 # (a) pipelines
 @st.composite
 def pipeline_cases(draw):
-    route = draw(st.sampled_from(["numpy", "numpy", "segy", "segy", "irregular", "2d"]))
+    route = draw(st.sampled_from(["numpy", "numpy", "segy", "segy", "irregular", "2d", "zgy", "vds"]))
     case = {"route": route, "version": draw(st.sampled_from(VERSIONS))}
     if route == "2d":
         rate, bs = draw(st.sampled_from([s for s in gen.SETTINGS_2D if s[0] >= 1 and s[1][1] <= 64]))
@@ -64,16 +64,25 @@ def pipeline_cases(draw):
             rate, bs = draw(st.sampled_from([s for s in gen.SETTINGS_3D if s[1][0] <= 16 and s[1][1] <= 16]))
         case["setting"] = {"rate": rate, "blockshape": list(bs)}
         dims = draw(st.sampled_from([None, None, (8, 16), (16, 8), (4, 32), (9, 14), (5, 26), (16, 16)]))
+        # traces of up to 20 samples, or long enough for several blocks in depth (so that depth crops exist)
+        ns = draw(st.one_of(st.integers(2, 20), st.integers(2, 20), st.integers(bs[2] + 1, min(3 * bs[2], 1100)) if bs[2] <= 512 else st.integers(2, 20)))
         if route == "numpy":
             n_il, n_xl = dims or (draw(st.integers(2, 14)), draw(st.integers(2, 14)))
-            case.update(shape=[n_il, n_xl, draw(st.integers(2, 20))], values=draw(gen.values_spec),
+            case.update(shape=[n_il, n_xl, ns], values=draw(gen.values_spec),
                         il=list(draw(gen.line_axis(n_il))), xl=list(draw(gen.line_axis(n_xl))),
                         extra=draw(st.lists(st.sampled_from([1, 5, 21, 73, 181, 185]), max_size=5, unique=True)),
-                        dz_ms=draw(st.sampled_from([4, 2, 1, 0.5])), z0=draw(st.sampled_from([0, 100, -8])))
+                        dz_ms=draw(st.sampled_from([4, 2, 1, 0.5, 0.333, 0.125])), z0=draw(st.sampled_from([0, 100, -8])))
+        elif route in ("zgy", "vds"):
+            n_il, n_xl = dims or (draw(st.integers(2, 14)), draw(st.integers(2, 14)))
+            ax = lambda: [draw(st.one_of(st.integers(-50, 5000), st.integers(-10 ** 6, 10 ** 6))), draw(st.sampled_from([1, 1, 2, 3, 5]))]
+            case.update(shape=[n_il, n_xl, ns], values={"kind": draw(st.sampled_from(["smooth", "gauss", "steps"])), "vseed": draw(st.integers(0, 2 ** 32 - 1))},
+                        il=ax(), xl=ax(), dz_ms=draw(st.sampled_from([4, 2, 1, 0.5])), z0=draw(st.sampled_from([0, 100, -8])))
         else:
             geom = "regular" if route == "segy" else "irregular"
             case["src"] = draw(sources.segy_source(geom=geom, max_dim=12, max_ns=20, allow_mid=False,
                                                    dims=dims if geom == "regular" else None))
+            if geom == "regular" and ns > 20:
+                case["src"]["ns"] = ns
     # irregular surveys need the inline-number array to be kept (C08's precondition): no 'strip'
     case["mode"] = draw(st.sampled_from(["heuristic", "thorough", "exhaustive"] + ([] if route == "irregular" else ["strip"])))
     n_ops = draw(st.integers(0, 2))
@@ -82,7 +91,7 @@ def pipeline_cases(draw):
     can_reblock = route != "2d" and case["setting"]["rate"] == 2 and case["setting"]["blockshape"] == [4, 4, 1024]
     for _ in range(n_ops):
         choices = []
-        if route in ("numpy", "segy"):
+        if route in ("numpy", "segy", "zgy", "vds"):
             choices.append("crop")
         if can_reblock:
             choices.append("reblock")
@@ -92,7 +101,8 @@ def pipeline_cases(draw):
             break
         k = draw(st.sampled_from(choices))
         if k == "crop":
-            ops_.append({"op": "crop", "f": [draw(st.floats(0, 1)) for _ in range(4)], "axes": draw(st.sampled_from([[0], [1], [0, 1], [0, 1]]))})
+            ops_.append({"op": "crop", "f": [draw(st.floats(0, 1)) for _ in range(4)], "f2": [draw(st.floats(0, 1)) for _ in range(2)],
+                         "axes": draw(st.sampled_from([[0], [1], [0, 1], [0, 1], [2], [0, 2], [0, 1, 2]]))})
         else:
             ops_.append({"op": k})
             if k == "reblock":
@@ -128,6 +138,27 @@ def first_stage(case, d):
                                headers=headers_from_cols(cols, n_il * n_xl), pos=list(range(n_il * n_xl)),
                                tracecount=n_il * n_xl, rate=rate, bs=bs, versions=vstamp, source_code=20,
                                detection_code=0, stored_fields=sorted(set(case["extra"]) | {189, 193}))
+            return out, st_, None
+        if route in ("zgy", "vds"):
+            n_il, n_xl, ns = case["shape"]
+            data = gen.make_values((n_il, n_xl, ns), case["values"]["kind"], case["values"]["vseed"])
+            path = os.path.join(d, "in." + route)
+            if route == "zgy":
+                z = sources.write_zgy(path, data, case["il"], case["xl"], case["z0"], case["dz_ms"])
+                conv.segy_convert(path, out, rate, bs, cls="ZgyConverter")
+                det = 0
+            else:
+                sources.track_vds()
+                try:
+                    z = sources.write_vds(path, data, case["il"], case["xl"], case["z0"], case["dz_ms"])
+                    conv.segy_convert(path, out, rate, bs, cls="VdsConverter", header_detection=case["mode"])
+                finally:
+                    sources.close_leaked_vds()
+                det = MODE_CODE[case["mode"]]
+            # headers of these routes are not pinned by the statement beyond the line numbers: not asserted
+            st_ = stages.Stage(vol=codec.image(z["cube"], rate), il=np.array(z["ilines"]), xl=np.array(z["xlines"]),
+                               samples=z["samples"], headers=None, pos=list(range(n_il * n_xl)), tracecount=n_il * n_xl,
+                               rate=rate, bs=bs, versions=vstamp, source_code=10 if route == "zgy" else 30, detection_code=det)
             return out, st_, None
         S = sources.build(case["src"], d)
         sources.annotate(case, S)
@@ -172,11 +203,12 @@ def run_pipeline(case, ctx):
             if not structured:
                 shape.append("crop-skipped")
                 continue
-            n = (len(stg.il), len(stg.xl))
+            n = (len(stg.il), len(stg.xl), len(stg.samples))
             box = [None, None, None]
             for a in op["axes"]:
-                lo = int(op["f"][2 * a] * (n[a] - 1))
-                hi = lo + 1 + int(op["f"][2 * a + 1] * (n[a] - lo - 1))
+                f = op["f"][2 * a:2 * a + 2] if a < 2 else op.get("f2", [0.0, 1.0])
+                lo = int(f[0] * (n[a] - 1))
+                hi = lo + 1 + int(f[1] * (n[a] - lo - 1))
                 box[a] = (lo, hi)
             c = SgzCropper(path)
             try:
